@@ -11,6 +11,28 @@ let group comps = String.concat " /" (List.map (fun rows -> sp (List.concat rows
 let rec pairs = function a :: b :: t -> (a, b) :: pairs t | _ -> []
 (* the harness repeats the last (psv, pt) pair for the remaining components *)
 let rec pad_pairs n l = if List.length l >= n || l = [] then take n l else pad_pairs n (l @ [List.nth l (List.length l - 1)])
+(* one scan of the components whose planes are given (each a list of rows):
+   the scan-level model (per-component encoder state, shared decoder restart counter).
+   inject = the planes ARE the difference rows handed to the entropy coder. *)
+let rec transpose_rows = function
+  | [] -> [] | [] :: _ -> []
+  | planes -> List.map List.hd planes :: transpose_rows (List.map List.tl planes)
+let scan_codec inject ri w psv pt prec planes =
+  let n = List.length planes in
+  let zri = zi ri and zw = zi w and zpsv = zi psv and zprec = zi prec and zpt = zi pt in
+  if not (params_ok zpsv zprec zpt && start_pass_ok zri zw) then None else begin
+    let mrows = transpose_rows (List.map zrows planes) in       (* rows -> comps -> samples *)
+    let nn = nat_of_int n in
+    let rec rep x k = if k = 0 then [] else x :: rep x (k - 1) in
+    let ed = if inject then mrows else
+        enc_scan_rows zri zw zpsv zprec zpt (rep (reset_predictor zri zw) n) (rep [] n) mrows in
+    let dd = List.map (List.map (List.map canon_diff)) ed in
+    let out = dec_scan_rows zri zw zpsv zprec zpt (rep true n) (Z.div zri zw) (rep [] n) dd in
+    let percomp x = List.map irows (transpose_rows x) in           (* comps -> rows -> samples *)
+    let e = percomp ed and d = percomp dd and o = percomp out in
+    ignore nn;
+    Some (List.map2 (fun (a, b) c -> (a, b, c)) (List.combine e d) o)
+  end
 let () = iter_lines (fun line ->
   let fs = fields line in
   let hd = words (List.nth fs 0) in
@@ -49,25 +71,33 @@ let () = iter_lines (fun line ->
   | "api" :: kind :: rest ->
       let a = List.map int_of_string rest in
       let prec = List.nth a 0 and w = List.nth a 1 and nc = List.nth a 3 and ri = List.nth a 4 in
+      let scanmode = if List.length a > 10 then List.nth a 10 else 0 in
       let pp = pad_pairs nc (pairs (ints_of (List.nth fs 1))) in
       let planes = List.map (fun f -> split_rows w (ints_of f)) (take nc (drop 2 fs)) in
-      let enc = List.map2 (fun (psv, pt) rows ->
-          enc_component (zi ri) (zi w) (zi psv) (zi prec) (zi pt) (zrows rows)) pp planes in
-      if List.exists (fun e -> e = None) enc then print_endline "rej" else begin
-        let ed = List.map (function Some d -> d | None -> []) enc in
-        let dd = List.map (List.map (List.map canon_diff)) ed in
-        let out = List.map2 (fun (psv, pt) d ->
-            match dec_component (zi ri) (zi w) (zi psv) (zi prec) (zi pt) d with Some o -> o | None -> []) pp dd in
-        let eds = if kind = "tj" then " -" else group (List.map irows ed) in
-        Printf.printf "ok ed%s ; dd%s ; out%s\n" eds (group (List.map irows dd)) (group (List.map irows out))
+      (* component groups of the scans *)
+      let idx = List.init nc (fun i -> i) in
+      let scans = match scanmode with
+        | 2 -> List.map (fun i -> [i]) idx
+        | 3 when nc >= 2 -> [[0]; List.tl idx]
+        | _ -> [idx] in
+      let results = List.map (fun comps ->
+          let (psv, pt) = List.nth pp (List.hd comps) in
+          scan_codec false ri w psv pt prec (List.map (List.nth planes) comps)) scans in
+      if List.exists (fun r -> r = None) results then print_endline "rej" else begin
+        let per = List.concat (List.map (function Some l -> l | None -> []) results) in
+        let ed = List.map (fun (e, _, _) -> e) per and dd = List.map (fun (_, d, _) -> d) per
+        and out = List.map (fun (_, _, o) -> o) per in
+        let eds = if kind = "tj" then " -" else group ed in
+        Printf.printf "ok ed%s ; dd%s ; out%s\n" eds (group dd) (group out)
       end
   | "inj" :: rest ->
       let a = List.map int_of_string rest in
       let prec = List.nth a 0 and w = List.nth a 1 and nc = List.nth a 3 and ri = List.nth a 4 in
-      let pp = pad_pairs nc (pairs (ints_of (List.nth fs 1))) in
+      let (psv, pt) = List.hd (pairs (ints_of (List.nth fs 1))) in
       let planes = List.map (fun f -> split_rows w (ints_of f)) (take nc (drop 2 fs)) in
-      let dd = List.map (fun rows -> List.map (List.map canon_diff) (zrows rows)) planes in
-      let out = List.map2 (fun (psv, pt) d ->
-          match dec_component (zi ri) (zi w) (zi psv) (zi prec) (zi pt) d with Some o -> o | None -> []) pp dd in
-      Printf.printf "ok dd%s ; out%s\n" (group (List.map irows dd)) (group (List.map irows out))
+      (match scan_codec true ri w psv pt prec planes with
+       | None -> print_endline "rej"
+       | Some per ->
+           Printf.printf "ok dd%s ; out%s\n" (group (List.map (fun (_, d, _) -> d) per))
+             (group (List.map (fun (_, _, o) -> o) per)))
   | _ -> print_endline "?")
